@@ -64,6 +64,11 @@ pub enum Call {
     ReadStorage(String),
     Walk,
     WalkStorage(String),
+    /// `walk()` driven step by step, with another read-only call (`exists` of the entry just
+    /// returned) between two `next()` calls - the iterator is alive across other API calls
+    WalkInterleaved,
+    /// the same for `read_root_storage()`
+    ReadRootInterleaved,
 }
 
 impl Call {
@@ -78,6 +83,8 @@ impl Call {
             Call::ReadStorage(p) => format!("read_storage:{p}"),
             Call::Walk => "walk".into(),
             Call::WalkStorage(p) => format!("walk_storage:{p}"),
+            Call::WalkInterleaved => "walk_interleaved".into(),
+            Call::ReadRootInterleaved => "read_root_interleaved".into(),
         }
     }
     pub fn parse(s: &str) -> Result<Call, String> {
@@ -96,6 +103,8 @@ impl Call {
             "read_storage" => Call::ReadStorage(need(p)?),
             "walk" => Call::Walk,
             "walk_storage" => Call::WalkStorage(need(p)?),
+            "walk_interleaved" => Call::WalkInterleaved,
+            "read_root_interleaved" => Call::ReadRootInterleaved,
             _ => return Err(format!("unknown call {s:?}")),
         })
     }
@@ -113,6 +122,8 @@ pub enum Op {
     SeekCur { h: usize, delta: i64 },
     SetLen { h: usize, n: u64 },
     Flush { h: usize },
+    /// `flush()` issued from inside a `for entry in cf.walk()` loop on the writer's own thread
+    FlushInWalk { h: usize },
 }
 
 impl Op {
@@ -124,6 +135,7 @@ impl Op {
             | Op::SeekEnd { h, .. }
             | Op::SeekCur { h, .. }
             | Op::SetLen { h, .. }
+            | Op::FlushInWalk { h }
             | Op::Flush { h } => h,
         }
     }
@@ -136,6 +148,7 @@ impl Op {
             | Op::SeekEnd { h, .. }
             | Op::SeekCur { h, .. }
             | Op::SetLen { h, .. }
+            | Op::FlushInWalk { h }
             | Op::Flush { h } => *h = nh,
         }
         o
@@ -149,6 +162,7 @@ impl Op {
             Op::SeekCur { h, delta } => format!("seek_cur:{h}:{delta}"),
             Op::SetLen { h, n } => format!("set_len:{h}:{n}"),
             Op::Flush { h } => format!("flush:{h}"),
+            Op::FlushInWalk { h } => format!("flush_in_walk:{h}"),
         }
     }
     pub fn parse(s: &str) -> Result<Op, String> {
@@ -164,6 +178,7 @@ impl Op {
             "seek_cur" => Op::SeekCur { h, delta: arg(2)?.parse().map_err(|_| bad())? },
             "set_len" => Op::SetLen { h, n: arg(2)?.parse().map_err(|_| bad())? },
             "flush" => Op::Flush { h },
+            "flush_in_walk" => Op::FlushInWalk { h },
             _ => return Err(bad()),
         })
     }
@@ -426,13 +441,13 @@ impl<'a> TreeModel<'a> {
             Call::IsStream(p) => Res::Bool(self.kind(p) == Some(Kind::Stream)),
             Call::IsStorage(p) => Res::Bool(matches!(self.kind(p), Some(Kind::Storage | Kind::Root))),
             Call::RootEntry => Res::Entry(self.seen("/")),
-            Call::ReadRoot => Res::List(self.children("/").iter().map(|c| self.seen(c)).collect()),
+            Call::ReadRoot | Call::ReadRootInterleaved => Res::List(self.children("/").iter().map(|c| self.seen(c)).collect()),
             Call::ReadStorage(p) => match self.kind(p) {
                 None => not_found(),
                 Some(Kind::Stream) => Res::Err("InvalidInput".into()),
                 Some(_) => Res::List(self.children(p).iter().map(|c| self.seen(c)).collect()),
             },
-            Call::Walk => {
+            Call::Walk | Call::WalkInterleaved => {
                 let mut out = Vec::new();
                 self.preorder("/", &mut out);
                 Res::List(out)
@@ -574,8 +589,10 @@ pub fn generate(
                 }
             };
             let call = if listing {
-                match rng.below(6) {
+                match rng.below(9) {
                     0 => Call::ReadRoot,
+                    6 | 7 => Call::WalkInterleaved,
+                    8 => Call::ReadRootInterleaved,
                     1 => {
                         // mostly a storage, sometimes a stream / missing path (error paths)
                         if rng.below(4) == 0 {
@@ -650,7 +667,7 @@ pub fn generate(
                 }
                 writer.push(Op::Write { h, n: n as usize });
             }
-            1 => writer.push(Op::Flush { h }),
+            1 => writer.push(if rng.below(4) == 0 { Op::FlushInWalk { h } } else { Op::Flush { h } }),
             2 => {
                 // cross the 4096 mini-stream cutoff about half of the time
                 let mut n = if (m.len < 4096) == (rng.below(2) == 0) {
@@ -692,7 +709,7 @@ pub fn generate(
         }
     }
     // make sure something is committed: end with a flush on a handle that wrote
-    if !writer.iter().any(|o| matches!(o, Op::Flush { .. } | Op::SetLen { .. })) {
+    if !writer.iter().any(|o| matches!(o, Op::Flush { .. } | Op::FlushInWalk { .. } | Op::SetLen { .. })) {
         let h = writer.iter().find_map(|o| if let Op::Write { h, .. } = o { Some(*h) } else { None }).unwrap_or(0);
         writer.push(Op::Flush { h });
     }
